@@ -99,6 +99,17 @@ def rtLine (args : List String) : String :=
     | _, _, _, _, _ => "bad-op"
   | _ => "bad-op"
 
+/-- `hyp <op> <s|u|b> <n> <a> <b> <aform> <bform>`: which theorem hypotheses the case violates. -/
+def hypLine (args : List String) : String :=
+  match args with
+  | [op, k, n, a, b, af, bf] =>
+    match Fold.parseOp op, parseKind k, n.toNat?, a.toInt?, b.toInt?, parseForm af, parseForm bf with
+    | some op, some k, some n, some a, some b, some af, some bf =>
+      let hs := caseHyps op k n a b af bf
+      if hs.isEmpty then "covered" else "+".intercalate hs
+    | _, _, _, _, _, _, _ => "bad-op"
+  | _ => "bad-op"
+
 /-- Line protocol of property C12: `c12 <kind> <args...>`. -/
 def handle (args : List String) : String :=
   match args with
@@ -106,6 +117,7 @@ def handle (args : List String) : String :=
   | "fold" :: rest => foldLine rest false
   | "cret" :: rest => foldLine rest true
   | "rt" :: rest => rtLine rest
+  | "hyp" :: rest => hypLine rest
   | _ => "bad-op"
 
 end Drv.C12
